@@ -19,7 +19,7 @@ for sid in sys.argv[1:]:
     r = sh("%s/demo.sh %s" % (d, WT)); res["demo_without_patch_exit"] = r.returncode
     a = sh("git -C %s apply %s/patch.diff" % (WT, d)); res["patch_applies"] = a.returncode == 0
     r = sh("%s/demo.sh %s" % (d, WT)); res["demo_with_patch_exit"] = r.returncode; res["demo_with_patch_tail"] = r.stdout[-600:]
-    b = sh("%s/tools/baseline.sh %s" % (ROOT, WT)); res["baseline_with_patch"] = b.stdout.strip().split("\n")[-1] if b.returncode == 0 else "FAIL: " + b.stdout[-500:]
+    b = sh("BASELINE_TARGET=/tmp/seed-target-nextest %s/tools/baseline.sh %s" % (ROOT, WT)); res["baseline_with_patch"] = b.stdout.strip().split("\n")[-1] if b.returncode == 0 else "FAIL: " + b.stdout[-500:]
     res["ok"] = res["demo_without_patch_exit"] == 0 and res["patch_applies"] and res["demo_with_patch_exit"] != 0 and b.returncode == 0
     sh("git -C %s checkout -- . ; git -C %s clean -fdq -e target" % (WT, WT))
     m = json.load(open(os.path.join(d, "meta.json"))); m["confirmed"] = res
